@@ -673,8 +673,6 @@ def _tt_case(draw, kind, min_order=2):
     else:
         c["cores"] = draw(gen.tt_cores(shape, ranks))
     c["pad_boundaries"] = (kind == "tr") and draw(st.booleans())
-    if kind == "tr" and not c["pad_boundaries"]:
-        pass
     return c
 
 
@@ -868,14 +866,15 @@ def subchecks(tier):
             S.append(SubCheck(f"pad_tt_rank/{kind}/{part}", _tt_case(kind), _o_pad(part), quick=200, thorough=3000))
     S.append(SubCheck("pad_tt_rank/tt_order1/dense", _tt_order1_case(), _o_pad("dense"), quick=60, thorough=400))
     # mode products
-    for operand in ("matrix", "vector", "vector_keep"):          # vector_keep = D17
-        for form, cpy in (("wrapper", True), ("wrapper", False), ("tuple", True)):
-            S.append(SubCheck(f"cp_mode_dot/{operand}/{form}/copy={cpy}", _cp_modedot_case(operand, form, cpy), o_cp_modedot, quick=q, thorough=t))
+    for operand in ("matrix", "vector", "vector_keep"):          # vector_keep = D17 class
+        # (plain tuple, copy=False) is the documented input form with the function's default option (defect N1 class)
+        for form, cpy in (("wrapper", True), ("wrapper", False), ("tuple", True), ("tuple", False)):
+            n = (q, t) if (form, cpy) != ("tuple", False) else (150, 1500)
+            S.append(SubCheck(f"cp_mode_dot/{operand}/{form}/copy={cpy}", _cp_modedot_case(operand, form, cpy), o_cp_modedot, quick=n[0], thorough=n[1]))
         for form, cpy in (("wrapper", True), ("wrapper", False), ("tuple", True), ("tuple", False)):
             S.append(SubCheck(f"tucker_mode_dot/{operand}/{form}/copy={cpy}", _tucker_modedot_case(operand, form, cpy), o_tucker_modedot, quick=q, thorough=t))
-    # documented input form (weights, factors) with the function's default copy=False
-    S.append(SubCheck("cp_mode_dot/matrix/tuple/copy=False", _cp_modedot_case("matrix", "tuple", False), o_cp_modedot, quick=150, thorough=1000))
-    S.append(SubCheck("cp_mode_dot/vector/tuple/copy=False", _cp_modedot_case("vector", "tuple", False), o_cp_modedot, quick=150, thorough=1000))
-    # (None, factors) tuples with copy=True
-    S.append(SubCheck("cp_mode_dot/matrix/tuple_none_weights/copy=True", _cp_modedot_case("matrix", "tuple", True, weights=("none",)), o_cp_modedot, quick=150, thorough=1000))
+    # (None, factors) tuples (defect N2 class)
+    for operand, cpy in (("matrix", True), ("vector", False), ("vector_keep", True)):
+        S.append(SubCheck(f"cp_mode_dot/{operand}/tuple_none_weights/copy={cpy}", _cp_modedot_case(operand, "tuple", cpy, weights=("none",)),
+                          o_cp_modedot, quick=150, thorough=1500))
     return S
